@@ -2,6 +2,7 @@ SPECIFICATION Spec
 CONSTANTS
   Denoms = {"eth"}
   Mods <- Mods0
+  AddrMode = "simple"
   MaxTx = 2
   Fuel = 3
   Level = 1
